@@ -153,6 +153,18 @@ def build_defuzzifier(fl, d):
     return getattr(fl, c)(resolution=d["resolution"])
 
 
+def share_components(e):
+    """configure the engine the way Engine.configure does: ONE operator / defuzzifier object serves every rule block / output
+    variable that uses this class with these parameters"""
+    pool = {}
+    for comp, fields in [(b, ("conjunction", "disjunction", "implication")) for b in e.rule_blocks] + [(v, ("aggregation", "defuzzifier")) for v in e.output_variables]:
+        for f in fields:
+            x = getattr(comp, f)
+            if x is not None:
+                setattr(comp, f, pool.setdefault(repr(x), x))
+    return e
+
+
 def build_engine(fl, E, style=0):
     ins = [fl.InputVariable(name=v["name"], enabled=v["enabled"], minimum=to_float(v["min"]), maximum=to_float(v["max"]),
                             lock_range=v["lockRange"], terms=[build_term(fl, t) for t in v["terms"]]) for v in E["inputs"]]
